@@ -34,6 +34,21 @@ def pos_elem(st, X, name):
 
 # ---- proximal operators -------------------------------------------------------------------------
 
+_SIMPLEX_SYMS = {}
+
+
+def proj_simplex_contract(I, fr, x, diameter=1, out=None):
+    """contract of proj_simplex (sort / cumsum / argwhere code, not interpreted): `out` (a new element if None) receives a value that is a FUNCTION
+    of the values of x and of the diameter only; x is not written unless it is out"""
+    if out is None:
+        out = tlib.builder(I._getattr(x, 'space', fr)).element()
+    key = core.skey(diameter)
+    sym = _SIMPLEX_SYMS.setdefault(key, core.OpSym('proj_simplex[%s]' % (key,)))
+    lib.set_content(out, core.VApp(sym, (content(x),), 'real'))
+    fr.st.events.append(('write', out))
+    return out
+
+
 def prox_maker(factory, field='real', g=False, sigma='scalar', extra=None):
     def make(I, st, fr):
         X = tspace(I, st, 'X', field)
@@ -67,6 +82,7 @@ def prox_maker(factory, field='real', g=False, sigma='scalar', extra=None):
                 st.assume(lo_v <= up_v)
         elif factory in ('proximal_linfty', 'proximal_convex_conj_linfty', 'proximal_const_func'):
             kw = {}
+            st.cuts[PROX + 'proj_simplex'] = proj_simplex_contract
         cls = I.call(f, args, kw, fr)
         if sigma == 'scalar':
             sg = pos_scalar(st, 'sigma')
@@ -92,6 +108,8 @@ for _lo in (None, 'scalar', 'elem'):
     for _up in (None, 'scalar', 'elem'):
         PROX_CASES.append(('proximal_box_constraint', dict(sigma='scalar', extra=(_lo, _up))))
 PROX_CASES.append(('proximal_const_func', dict(sigma='scalar')))
+PROX_CASES.append(('proximal_linfty', dict(sigma='scalar')))
+PROX_CASES.append(('proximal_convex_conj_linfty', dict(sigma='scalar')))
 
 
 # ---- default_ops ---------------------------------------------------------------------------------
